@@ -435,7 +435,7 @@ impl Part for RoundsPart {
             .boxed()
     }
     fn cases(&self, tier: Tier) -> u64 {
-        tier.pick(30_000, 2_000_000)
+        tier.pick(90_000, 2_000_000)
     }
     fn exec(&self, c: &Case, out: &mut CaseOut) -> Result<(), Fail> {
         let mut m = Mon::new(c.setup.codec);
@@ -569,7 +569,7 @@ fn part_any_order() -> HistPart<ReqMon, impl Fn(&Setup) -> ReqMon + Sync> {
         name: "indirect-requests-with-timers-in-any-order",
         sp,
         p,
-        cases_quick: 25_000,
+        cases_quick: 75_000,
         cases_thorough: 1_500_000,
         mk: |s: &Setup| ReqMon { codec: s.codec, requests: 0, stale_indirect_timers: 0, nontrivial: Vec::new() },
     }
